@@ -265,7 +265,7 @@ def run(ctx: Any) -> None:
     rng = ctx.rng
 
     scenarios = targeted()
-    n_rand = 70 if quick else 500
+    n_rand = 50 if quick else 500
     segs = [HEADER + 1, HEADER + PAGE + 1, HEADER + 5 * PAGE, HEADER + 20 * PAGE, 1 << 20, 4 << 20]
     threshs = [0, 1, 64, 1000, 4096, 131072]
     for k in range(n_rand):
@@ -348,7 +348,7 @@ def run(ctx: Any) -> None:
             outs.append(f"({dl}, {c_table(ca['table'])}, 0)")
         cases.append((f"({bflags}, {a['total']}, {thresh}, {mh})", "[" + ";\n ".join(outs) + "]"))
         keys.append(replay)
-        if time.time() - t_sc > 3:
+        if time.time() - t_sc > 15:
             ctx.log(f"slow scenario {sc['name']}: {time.time() - t_sc:.1f}s")
     ctx.sample({"scenario": scenarios[0]["name"], "history": scenarios[0]["history"]})
     ctx.log(f"{len(cases)} histories run on shm-pipe and pipe; leaks seen: {leaks_seen}")
